@@ -68,6 +68,14 @@ impl From<&str> for Probe {
     }
 }
 
+/// The property says the captured input is converted with `From<&str>`: an owned-string conversion exists too and
+/// gives a visibly different value (and no `From` event).
+impl From<String> for Probe {
+    fn from(s: String) -> Probe {
+        Probe { text: format!("<owned>{}", s), static_text: "", style: 0, err_at: -1 }
+    }
+}
+
 impl fmt::Display for Probe {
     fn fmt(&self, f: &mut fmt::Formatter<'_>) -> fmt::Result {
         log_push(Event::Fmt {
@@ -183,6 +191,12 @@ impl From<&str> for Nested {
     }
 }
 
+impl From<String> for Nested {
+    fn from(s: String) -> Nested {
+        Nested::ALL[(s.len() + 1) % 4]
+    }
+}
+
 pub mod fake {
     //! A user type that merely happens to be called `String`: it derefs to `str` but has a `Display` of its own.
     use core::fmt;
@@ -191,6 +205,11 @@ pub mod fake {
     impl From<&str> for String {
         fn from(s: &str) -> String {
             String(s.to_string())
+        }
+    }
+    impl From<std::string::String> for String {
+        fn from(s: std::string::String) -> String {
+            String(format!("<owned>{}", s))
         }
     }
     impl fmt::Display for String {
@@ -804,6 +823,13 @@ pub fn exec(case: &Case, leg: &Leg, mut stats: Option<&mut Stats>, keep_log: boo
                     if let Some(h) = held {
                         if h != *input {
                             return (Err(mk_fail("captured_value", format!("{:?}", input), format!("{:?}", h))), info);
+                        }
+                    }
+                    if let InnerVal::Nested(n) = &iv {
+                        // (converted with From<&str>: for this type that is a function of the input's length)
+                        let want = Nested::from(input.as_str());
+                        if *n != want {
+                            return (Err(mk_fail("captured_value", format!("{:?}", want), format!("{:?}", n))), info);
                         }
                     }
                 }
